@@ -486,6 +486,8 @@ var c08Templates = []string{
 	"@(parse_json(\"{\\\"b\\\":1,\\\"a\\\":2,\\\"c\\\":{\\\"z\\\":1,\\\"y\\\":2}}\"))", "@(json(parse_json(\"{\\\"b\\\":1,\\\"a\\\":2}\")))", "@(parse_json(\"{\\\"k\\\":1,\\\"K\\\":2}\").k)", "@(parse_json(\"{\\\"K\\\":1,\\\"k\\\":2}\").K)",
 	"@(keys(parse_json(\"{\\\"b\\\":1,\\\"a\\\":2,\\\"C\\\":3}\")))", "@(object(\"b\", 1, \"a\", 2))", "@(format(object(\"b\", 1, \"a\", 2)))", "@(foreach_value(object(\"b\", 1, \"a\", 2), (k, v) => k & v))", "@(extract_object(contact, \"name\", \"language\"))",
 	"@(parse_datetime(\"9999-12-31T23:59:59.999999Z\", \"tt:mm:ss.fffffffff\"))", "@(parse_time(\"x\", \"tt:mm\"))", "@(parse_datetime(\"2020-01-01 ab:30\", \"YYYY-MM-DD t:mm\"))", "@(parse_time(\"25:61\", \"hh:mm aa\"))", "@(parse_datetime(\"x\", \"DD-MM-YYYY\"))",
+	// everything random comes from the one seeded random source, whatever the range
+	"@(rand())", "@(rand_between(1, 10))", "@(rand_between(0, 99999999999999999999))", "@(rand_between(-9007199254740993, 9007199254740993))", "@(rand_between(1, 100000000000000000000000000000))", "@(rand_between(0.5, 1.5))",
 	"@webhook", "@(json(webhook))", "@webhook.headers", "@legacy_extra", "@(json(legacy_extra))", "@urns", "@(json(urns))", "@globals", "@(json(globals))", "@parent", "@child", "@node",
 }
 
